@@ -55,6 +55,10 @@ def exc_class(e):
     if isinstance(e, SystemExit):
         code = e.code if isinstance(e.code, int) else (0 if e.code is None else 1)
         return f"exit{code}"
+    # the class the error belongs to, not the name the project gives it: `class ArchiveNameError(ValueError)` is a ValueError
+    for c in type(e).__mro__:
+        if c.__module__ == "builtins":
+            return c.__name__
     return type(e).__name__
 
 
